@@ -491,7 +491,7 @@ class Exec:
                 has_suffix(blk["name"], fmt) else blk["name"]
             if len(content) > CHUNK:
                 self.probe("content_larger_than_chunk")
-            self.body_points.append((bi, 3))
+            self.body_points.append((bi, 4))
             exc = None
             yielded = None
             fired_before = self.plane.fired
@@ -500,11 +500,12 @@ class Exec:
                     yielded = tfile
                     if body_fault == 0:
                         raise BodyError("before any write")
-                    with open(tfile, "wb") as f:
-                        f.write(content[:len(content) // 2])
-                        if body_fault == 1:
-                            raise BodyError("between writes")
-                        f.write(content[len(content) // 2:])
+                    if body_fault != 3:       # 3: the writer produces nothing
+                        with open(tfile, "wb") as f:
+                            f.write(content[:len(content) // 2])
+                            if body_fault == 1:
+                                raise BodyError("between writes")
+                            f.write(content[len(content) // 2:])
                     if body_fault == 2:
                         raise BodyError("after all writes")
             except (BodyError, Injected, OSError, EOFError, zipfile.BadZipFile,
@@ -513,6 +514,33 @@ class Exec:
             io_fault_here = self.plane.fired is not None and self.plane.fired is not fired_before
             self.log.append(f"b{bi} compress {blk['name']} -> {type(exc).__name__}")
             self._check_debris(bi, tmp_default, tmp_explicit, None)
+            if body_fault == 3 and fmt:
+                # The block was left normally but nothing had been written:
+                # there is nothing to compress. The error must reach the caller
+                # and the target must be neither created nor changed.
+                self.probe("body_wrote_nothing")
+                self.nontrivial = True
+                if exc is None:
+                    self.V.append(_viol(
+                        f"C12/compress/nothing-written-accepted/{fmt}",
+                        f"block {bi}: the with-body wrote nothing, yet compress "
+                        f"returned normally"))
+                if pre is None and os.path.exists(path):
+                    self.V.append(_viol(
+                        f"C12/compress/target-created-from-nothing/{fmt}",
+                        f"block {bi}: {blk['name']} exists although there was "
+                        f"nothing to compress"))
+                if pre is not None:
+                    with open(path, "rb") as f:
+                        now = f.read()
+                    if now != pre:
+                        self.V.append(_viol(
+                            f"C12/compress/target-destroyed-by-empty-block/{fmt}",
+                            f"block {bi}: existing {blk['name']} was modified "
+                            f"although there was nothing to compress"))
+                return True
+            if body_fault == 3:
+                return False           # pass-through name: nothing to check
             if body_fault is not None:
                 self.probe("body_exception_compress")
                 if fmt:
